@@ -33,6 +33,6 @@ RULE = ("schedules: 7 built-in (the O-3/O-4/O-5/O-5b/leader/role-change witnesse
         "snapshot installs, restarts with any cut of the unsynced tail, leader writes in flight; non-trivial = more than 3 actions, distinct by the realised action list; "
         "trunc: random leader logs / follower heads for truncateFollowerIfNeeded")
 LEGS = [
-    {"name": "node-c04", "harness": "node", "model": "node", "n_quick": 70, "n_thorough": 4000, "args": ["-focus", "c04"],
+    {"name": "node-c04", "harness": "node", "model": "node", "n_quick": 50, "n_thorough": 4000, "args": ["-focus", "c04"],
      "corpus": "corpus/node", "timeout": 600, "timeout_thorough": 3000},
 ]
